@@ -398,6 +398,38 @@ func c20Cases(quick bool) []c20Case {
 			}
 		})
 	}
+	// upserts into an empty collection: the filter is interpreted by the extraction of the new document only
+	for wi, wv := range W {
+		if quick && wi%2 == 1 {
+			continue
+		}
+		wv := wv
+		add("driver-upsert-empty", true, func() string {
+			return "UpdateOne / UpdateMany / ReplaceOne / FindOneAndUpdate / FindOneAndReplace with upsert into an empty collection, filters {$and|$or|$nor: operand, [operand], []}, {a: {$eq|$in|$all: operand}}, {\"a.b\": operand} with operand " + short(J(wv), 200)
+		}, func(w *world.World) {
+			var filters []bson.D
+			for _, op := range []string{"$and", "$or", "$nor"} {
+				filters = append(filters, bD(op, wv), bD(op, bson.A{wv}), bD(op, bson.A{}), bD(op, bson.A{bD("a", wv), bD("b", int32(1))}), bD("x", int32(1), op, bson.A{bD(op, bson.A{})}))
+			}
+			for _, op := range []string{"$eq", "$in", "$all", "$gt", "$exists", "$elemMatch"} {
+				filters = append(filters, bD("a", bD(op, wv)), bD("a.b", bD(op, bson.A{wv})))
+			}
+			filters = append(filters, bD("a.b", wv), bD("_id", wv), bD("a", wv, "a.b", wv), bD("", wv))
+			for _, f := range filters {
+				c := w.C("d", "empty")
+				_ = c.Drop(w.Ctx)
+				_, _ = c.UpdateOne(w.Ctx, f, bD("$set", bD("z", int32(1))), options.Update().SetUpsert(true))
+				_ = c.Drop(w.Ctx)
+				_, _ = c.UpdateMany(w.Ctx, f, bD("$setOnInsert", bD("z", wv)), options.Update().SetUpsert(true))
+				_ = c.Drop(w.Ctx)
+				_, _ = c.ReplaceOne(w.Ctx, f, bD("z", int32(1)), options.Replace().SetUpsert(true))
+				_ = c.Drop(w.Ctx)
+				_ = c.FindOneAndUpdate(w.Ctx, f, bD("$inc", bD("z", int32(1))), options.FindOneAndUpdate().SetUpsert(true).SetReturnDocument(options.After)).Err()
+				_ = c.Drop(w.Ctx)
+				_ = c.FindOneAndReplace(w.Ctx, f, bD("z", int32(1)), options.FindOneAndReplace().SetUpsert(true)).Err()
+			}
+		})
+	}
 	// reads with every combination of extreme skip / limit / batch size values
 	extremes := []int64{0, 1, -1, 2, math.MaxInt32, math.MaxInt32 + 1, math.MaxInt64, math.MinInt64, math.MaxInt64 - 1}
 	for _, skip := range extremes {
@@ -756,7 +788,7 @@ func init() {
 		r.Set("exhaustive", ran == int64(total) && !r.TooMany())
 		r.Set("worker_processes", int64(n))
 		r.Set("samples", []interface{}{map[string]interface{}{"paths": c20Paths()}, map[string]interface{}{"operands": short(J(bson.A(c20W()[:30])), 1500)}})
-		r.Set("rule", "wrong-type-everywhere grammar: every query operator x every operand of a 50-value pool (one value of every supported BSON type, non-finite and extreme numbers, empty containers, nested empties, $-keys, empty keys, 40-fold nesting, a 5000-character string) x 26 paths (empty, dotted oddly, positional, numeric, indexes at and around 2^63-1 and 2^32, signed and exponent numerals) on 12 documents (document-, binary- and NaN-valued _id, 32-fold nesting, empty keys) through mongokit.Match; top-level operators and every $jsonSchema keyword x operands; every update operator x operand x path through mongokit.Apply (with/without upsert and array filters), operator values that are not documents, $push/$addToSet modifiers x operands, array filters of every shape; projections, sorts and distinct x operands x paths; bsonkit Get/All/Put/Unset/Increment/Multiply/Push/Pop x operands x paths and Compare/Add/Mul/Mod on all operand pairs; driver-level Find/Count/Distinct/Delete/Update/upsert/FindOneAnd*/Replace/BulkWrite/CreateIndex on a collection holding every document shape, reads with every pair of extreme skip/limit/batch-size values, listings of databases and collections filtered on every field of their specifications, find-one-and-modify calls in every combination of returnDocument x upsert x sort x projection x matching/non-matching filter x effective/no-op/rejected updates and identical/different replacements, every ordered pair of 48 index definitions (coinciding names, keys, uniqueness, partial filters, expiry) through CreateOne/CreateMany/List/DropOne/DropOneWithKey, incl. update/replace/delete of documents with document- and binary-valued _id. Every case runs under recover() in a worker process with an address-space limit and a 60 s watchdog; after every engine-level case a probe write must succeed.")
+		r.Set("rule", "wrong-type-everywhere grammar: every query operator x every operand of a 50-value pool (one value of every supported BSON type, non-finite and extreme numbers, empty containers, nested empties, $-keys, empty keys, 40-fold nesting, a 5000-character string) x 26 paths (empty, dotted oddly, positional, numeric, indexes at and around 2^63-1 and 2^32, signed and exponent numerals) on 12 documents (document-, binary- and NaN-valued _id, 32-fold nesting, empty keys) through mongokit.Match; top-level operators and every $jsonSchema keyword x operands; every update operator x operand x path through mongokit.Apply (with/without upsert and array filters), operator values that are not documents, $push/$addToSet modifiers x operands, array filters of every shape; projections, sorts and distinct x operands x paths; bsonkit Get/All/Put/Unset/Increment/Multiply/Push/Pop x operands x paths and Compare/Add/Mul/Mod on all operand pairs; driver-level Find/Count/Distinct/Delete/Update/upsert/FindOneAnd*/Replace/BulkWrite/CreateIndex on a collection holding every document shape, upserts into an empty collection with logical and comparison filters over every operand, reads with every pair of extreme skip/limit/batch-size values, listings of databases and collections filtered on every field of their specifications, find-one-and-modify calls in every combination of returnDocument x upsert x sort x projection x matching/non-matching filter x effective/no-op/rejected updates and identical/different replacements, every ordered pair of 48 index definitions (coinciding names, keys, uniqueness, partial filters, expiry) through CreateOne/CreateMany/List/DropOne/DropOneWithKey, incl. update/replace/delete of documents with document- and binary-valued _id. Every case runs under recover() in a worker process with an address-space limit and a 60 s watchdog; after every engine-level case a probe write must succeed.")
 		r.Assume("panics whose message starts with 'lungo: ' (documented: unsupported driver options, nil arguments) are excluded", "BSON types lungo does not support at all (MinKey, MaxKey, JavaScript, Symbol, Undefined, DBPointer) are not part of the operand pool")
 		if ran < 20000 {
 			r.Broken("vacuity: only %d cases ran", ran)
